@@ -249,6 +249,8 @@ GEOM = [
   {"Position": ["pos", L(50, "%"), L(50, "%"), "left", "top"], "Extent": ["ext", L(5, "c"), L(16, "c")]},
   {"Extent": ["ext", L(3, "c"), L(20, "c")], "Origin": ["org", L(2, "c"), L(11, "c")]},
   {"Origin": ["org", L(5, "%"), L(60, "%")]},
+  # both tts:origin and tts:position (legal: the position takes precedence)
+  {"Origin": ["org", L(10, "%"), L(10, "%")], "Position": ["pos", L(50, "%"), L(0, "%"), "left", "bottom"], "Extent": ["ext", L(20, "%"), L(50, "%")]},
 ]
 DALIGN = [None, "before", "center", "after"]
 WM = [None, "rltb", "tbrl", "tblr"]
@@ -289,7 +291,7 @@ TIMING = [
 
 def fam_merge(configs):
   da = [None, "before", "after"]
-  prod = Product([range(len(TIMING)), da, da, [None, "tbrl"], [0, 1, 2], [0, 1, 2, 3, 4], configs])
+  prod = Product([range(len(TIMING)), da, da, [None, "tbrl"], [0, 1, 2], [0, 1, 2, 3, 4, 5], configs])
 
   def dec(i):
     ti, d1, d2, wm2, geo, assign, c = prod.decode(i)
@@ -336,6 +338,8 @@ def fam_merge(configs):
       body = node("body", [node("div", ps, id="d")], id="b")
     if assign == 3:
       body["c"][0]["r"] = f"r{n}"
+    if assign == 5:
+      body["r"] = f"r{n}"          # the reference sits on the body itself, and on the last region (the one that is merged away)
     return {"spec": doc_spec(body, regs), "config": list(c), "key": f"merge#{i}"}
   return Family("F-merge", prod.n, dec, check, timeout=30, note="2-3 regions: timing patterns x alignment x writing mode x geometry x region assignment")
 
